@@ -4,7 +4,9 @@ import (
 	"fmt"
 	"math"
 	"math/rand"
+	"runtime"
 	"strings"
+	"sync/atomic"
 	"testing"
 	"testing/synctest"
 	"time"
@@ -159,8 +161,21 @@ func c03History(t *testing.T, rng *rand.Rand) (viols [][2]string, stats map[stri
 				}
 				claim = sl + 1
 				isClaim = true
-				step = fmt.Sprintf("merge(left=[self],status=%d)", sl)
 				pp := &wire.MsgPushPull{LTime: 1, StatusLTimes: map[string]uint64{"self": sl, "other": 1}, LeftMembers: []string{"self"}, EventLTime: 1, QueryLTime: 1}
+				// the peer's left list usually names other departed members too, before and after this node
+				for k := rng.Intn(4); k > 0; k-- {
+					g := fmt.Sprintf("gone-%d", rng.Intn(5))
+					if _, dup := pp.StatusLTimes[g]; dup {
+						continue
+					}
+					pp.StatusLTimes[g] = uint64(rng.Intn(8))
+					if rng.Intn(2) == 0 {
+						pp.LeftMembers = append(pp.LeftMembers, g)
+					} else {
+						pp.LeftMembers = append([]string{g}, pp.LeftMembers...)
+					}
+				}
+				step = fmt.Sprintf("merge(left=%v,status=%d)", pp.LeftMembers, sl)
 				nd.ML.Delegate.MergeRemoteState(wire.Encode(wire.PushPull, pp), rng.Intn(2) == 0)
 			case x < 14:
 				lt := pickLT()
@@ -216,8 +231,105 @@ func c03History(t *testing.T, rng *rand.Rand) (viols [][2]string, stats map[stri
 	return
 }
 
+// c03Concurrent: claims about the node arrive while other gossip is being handled on
+// other goroutines (memberlist calls NotifyMsg from its packet handler and from every
+// stream goroutine). Background goroutines deliver join intents about unknown members,
+// stamped like gossip from peers whose clocks are in step with the node's (at or just
+// above the last value the harness saw), without pause; the main goroutine injects leave
+// claims about the node, each newer than anything it has seen, and waits for the refuting
+// join: its LTime must be strictly greater than the claim. Real time (no bubble: the
+// background never quiesces); the only wall-clock element is a watchdog whose firing is
+// inconclusive.
+func c03Concurrent(rng *rand.Rand, claims int) (viols [][2]string, stats map[string]int, inconclusive string) {
+	stats = map[string]int{}
+	net := simnet.New(1)
+	nd, err := cluster.Start(net, cluster.Opts{Name: "self", IP: "10.0.0.1", Profile: "passive",
+		Mutate: func(c *serf.Config) { c.BroadcastTimeout, c.LeavePropagateDelay = 0, 0 }})
+	if err != nil {
+		return [][2]string{{"setup", err.Error()}}, stats, ""
+	}
+	defer nd.Close()
+	tr := newQTracker()
+	tr.Poll(nd)
+	clockOf := func() uint64 {
+		var c uint64
+		fmt.Sscan(nd.S.Stats()["member_time"], &c)
+		return c
+	}
+	var seen atomic.Uint64 // a recent clock reading, shared with the background
+	seen.Store(clockOf())
+	var stop atomic.Bool
+	var delivered atomic.Int64
+	g := newBGroup()
+	for w := 0; w < 6; w++ {
+		w := w
+		g.Go(func() {
+			k := uint64(0)
+			for !stop.Load() {
+				k++
+				lt := seen.Load() + k%3
+				nd.NotifyMsg(wire.Encode(wire.Join, &wire.MsgJoin{LTime: lt, Node: fmt.Sprintf("ghost-%d", w)}))
+				delivered.Add(1)
+			}
+		})
+	}
+	defer func() { stop.Store(true); g.Wait() }()
+	var lastJoin uint64
+	for i := 0; i < claims && len(viols) == 0; i++ {
+		cur := clockOf()
+		seen.Store(cur)
+		claim := cur + uint64(8+rng.Intn(64))
+		nd.NotifyMsg(wire.Encode(wire.Leave, &wire.MsgLeave{LTime: claim, Node: "self", Prune: rng.Intn(4) == 0}))
+		// the refutation is queued by a goroutine of its own: wait for a join about the node newer than the last one
+		var max uint64
+		deadline := time.Now().Add(20 * time.Second)
+		for {
+			for _, f := range tr.Poll(nd) {
+				if f[0] == wire.Join {
+					var j wire.MsgJoin
+					if wire.Decode(f[1:], &j) == nil && j.Node == "self" && j.LTime > max {
+						max = j.LTime
+					}
+				}
+			}
+			if max != 0 && max != lastJoin {
+				break
+			}
+			if time.Now().After(deadline) {
+				return viols, stats, fmt.Sprintf("no refuting join observed within 20 s of real time after claim %d (watchdog)", claim)
+			}
+			runtime.Gosched()
+		}
+		lastJoin = max
+		stats["concurrent_claims"]++
+		seen.Store(max)
+		if max <= claim {
+			viols = append(viols, [2]string{"weak-refutation/concurrent", fmt.Sprintf("claim %d: leave claim about the node with LTime %d (its clock was %d) while 6 goroutines deliver join intents about other members: the refuting join has LTime %d, not strictly greater", i, claim, cur, max)})
+		}
+		if lm := nd.S.LocalMember(); lm.Status != serf.StatusAlive {
+			viols = append(viols, [2]string{"self-not-alive/concurrent", fmt.Sprintf("claim %d: LocalMember().Status=%v", i, lm.Status)})
+		}
+	}
+	stats["concurrent_background_deliveries"] = int(delivered.Load())
+	return
+}
+
 func TestC03(t *testing.T) {
 	r := evid.Start(t, "C03", "exploration")
+	nc := r.N(6, 120)
+	r.Cases("conc", nc, 2, func(ci int, rng *rand.Rand) {
+		viols, stats, inc := c03Concurrent(rng, 400)
+		if inc != "" {
+			r.Inconclusive(inc)
+		}
+		r.Eval(1)
+		for k, v := range stats {
+			r.Count(k, v)
+		}
+		for _, v := range viols {
+			r.Violation(v[0], ci, v[1], v[1])
+		}
+	})
 	n := r.N(5000, 200000)
 	r.Cases("hist", n, 0, func(ci int, rng *rand.Rand) {
 		viols, stats, desc := c03History(t, rng)
